@@ -2,6 +2,7 @@
 package props
 
 import (
+	_ "verif/harness/c01"
 	_ "verif/harness/c03"
 	_ "verif/harness/c09"
 )
